@@ -17,7 +17,7 @@ tpl = '/tmp/seed/brief_template.md' if os.path.exists('/tmp/seed/brief_template.
 t = open(tpl).read().replace('__PROPERTY__', text).replace('__WT__', wt).replace('__ID__', tag)
 if rnd:
     taken = []
-    for v in ('A', 'B', 'C', 'D', 'E', 'F'):
+    for v in ('A', 'B', 'C', 'D', 'E', 'F', 'G', 'H'):
         mp = '/verif/seeded/%s-%s/meta.json' % (pid, v)
         if os.path.exists(mp):
             m = json.load(open(mp))
@@ -31,6 +31,14 @@ if rnd:
               'type/template-argument combination AND a particular relation between the operand values AND perhaps a particular operator form), or one that is confined to '
               'a region of 32/64/128-bit operand values that is neither a boundary value nor likely to be hit by random or structured sampling, while remaining reachable '
               'through the public API on in-domain inputs. Say in meta.json why you expect it to be missed.\n')
+    elif rnd == 'r5':
+        t += ('\n\nIn this round produce ONLY ONE defect (directory A; skip B) and be quick: you have about 15 minutes in total, so pick an idea fast, '
+              'make the change, write the demo, run the suite once, write the files and stop. Assume the property is guarded by a strong generated-input test suite '
+              '(exhaustive 8/16-bit operands, boundary values, random wide values, sweeps over exponents / digits / widths / radices, every operator form, both compilers). '
+              'Look for a part of the behaviour the property statement covers that such a suite could still have left out: a helper or overload reached only through an '
+              'uncommon spelling (a free function, a function object, a constructor from an unusual source type, a deduction guide, a conversion between two different '
+              'wrapper nestings), a template-argument combination that is rarely crossed with another, or a defect that needs two cooperating sites. '
+              'It must be reachable through the public API on in-domain inputs. Say in meta.json why you expect it to be missed.\n')
     elif rnd == 'r3':
         t += ('\n\nIn this round look for parts of the behaviour the property covers that are reached through LESS COMMON ENTRY POINTS or forms: free functions and '
               'function objects next to operators, compound assignment and increment/decrement, operands in the other order (built-in on the left), conversions between '
